@@ -10,7 +10,7 @@ from .. import gen_valid, ser, ser_valid, valid_common as vc
 
 PROP = "C05"
 THEOREMS = [
-    "C05_validate_total_partial", "C05_validate_never_crashes", "C05_close_fuel_sufficient",
+    "C05_validate_total", "C05_validate_total_partial", "C05_validate_never_crashes", "C05_close_fuel_sufficient",
     "C05_merge_unambiguous_pairwise", "C05_merge_unambiguous_within",
     "C05_shape_static", "C05_progress_static",
 ]
@@ -78,6 +78,10 @@ _W = [
     "{ anchor(req: 1, inn: {v: 1}, lnn: [1]) { ... on AnchorObj { n: name } ... on Query { n: __typename } ...ExF } } "
     "fragment ExF on AnchorObj { ... on AnchorObj { n: id } }",
 ]
+# C05-07: a fragment spread inside its own nested same-key fields (RecursionError before the fix)
+_W += ["{ anchor(req: 1, inn: {v: 1}, lnn: [1]) { ...G } } fragment G on AnchorObj { self { ...G self { ...G } } }",
+       "{ anchor(req: 1, inn: {v: 1}, lnn: [1]) { ...G } } fragment G on AnchorObj { self { self { ...G } ...G } }",
+       "{ anchor(req: 1, inn: {v: 1}, lnn: [1]) { ...G } } fragment G on AnchorObj { self { ...G self { ...G x: id } x: name } }"]
 # seeded C05-b / C06-b: variable positions (see gen_valid.variable_position_forms)
 _W += [gen_valid.render({"defs": defs}, "plain") for _n, defs in gen_valid.variable_position_forms(random.Random(7))]
 # seeded C05-a: a fragment's field node is the first of two merged nodes at two places
@@ -103,6 +107,11 @@ def corpus():
                 out.append({"kind": "shape", "sdl": WITNESS_SDL, "text": gen_valid.render({"defs": defs}, "plain"),
                             "opname": o["name"], "vars": {"zf": None if o["vars"][0]["type"] == "Boolean" else True},
                             "world": 0, "origin": "witness"})
+    # 5d4e174: a null for a defaulted `Boolean` variable used in @skip no longer escapes as CoercionError
+    for text in ("query ($s: Boolean = true) { anchor(req: 1, inn: {v: 1}, lnn: [1]) @skip(if: $s) { id } }",
+                 "query ($s: Boolean = true) { anchor(req: 1, inn: {v: 1}, lnn: [1]) { id self @include(if: $s) { id } } }"):
+        out.append({"kind": "shape", "sdl": WITNESS_SDL, "text": text, "opname": None, "vars": {"s": None}, "world": 0,
+                    "origin": "witness"})
     for world in (0, 1, 2):
         out.append({"kind": "shape", "sdl": WITNESS_SDL, "text": _MERGE, "opname": None, "vars": {}, "world": world,
                     "origin": "witness"})
